@@ -166,6 +166,22 @@ fn shadowed_const_cases(out: &mut Vec<Case>) {
     }
 }
 
+/// Widths and lengths written in every radix and with underscores and leading zeros.
+fn radix_width_cases(out: &mut Vec<Case>) {
+    for w in [1u32, 8, 9, 10, 15, 16, 17, 31, 32, 64, 100, 255] {
+        let spellings = [format!("0x{:x}", w), format!("0X{:X}", w), format!("0x0{:x}", w), format!("0o{:o}", w), format!("0b{:b}", w), format!("0B{:b}", w), format!("0b_{:b}", w), format!("00{}", w), format!("{}_", w).trim_end_matches('_').to_string(), if w >= 10 { format!("{}_{}", w / 10, w % 10) } else { format!("0_{}", w) }];
+        for sp in spellings {
+            for b in ["intw", "uintw", "bitw", "floatw", "anglew", "complexw"] {
+                let (text, ty) = spell(b, w, false);
+                let text = text.replace(&format!("[{}]", w), &format!("[{}]", sp));
+                out.push(Case { text: format!("{} x;", text), tag: format!("radixwidth/{}", b), expect: vec![("x".into(), ty)], bad_width: None, gates: None, def_ret: None, nontrivial: true });
+            }
+            out.push(Case { text: format!("qubit[{}] x;", sp), tag: "radixwidth/qubit".into(), expect: vec![("x".into(), Type::QubitArray(ArrayDims::D1(w as usize)))], bad_width: None, gates: None, def_ret: None, nontrivial: true });
+            out.push(Case { text: format!("const int n = {}; int[n] x;", sp), tag: "radixwidth/const".into(), expect: vec![("x".into(), Type::Int(Some(w), IsConst::False))], bad_width: None, gates: None, def_ret: None, nontrivial: true });
+        }
+    }
+}
+
 fn bad_cases(out: &mut Vec<Case>) {
     // (designator prelude, designator text, widths that must not be recorded)
     let big: [u64; 6] = [4294967296, 4294967297, 4294967296 + 32, 8589934592, 8589934593, 1 << 40];
@@ -428,6 +444,8 @@ pub fn spaces(tier: Tier, _seed: u64) -> Vec<Box<dyn Space>> {
     bad_cases(&mut bad);
     let mut shadowed = Vec::new();
     shadowed_const_cases(&mut shadowed);
+    let mut radix = Vec::new();
+    radix_width_cases(&mut radix);
     let mut sig = Vec::new();
     signature_cases(&mut sig);
     vec![
@@ -435,6 +453,7 @@ pub fn spaces(tier: Tier, _seed: u64) -> Vec<Box<dyn Space>> {
         Box::new(Decls { family: "const-width", cases: cw }),
         Box::new(Decls { family: "bad-width", cases: bad }),
         Box::new(Decls { family: "shadowed-const", cases: shadowed }),
+        Box::new(Decls { family: "radix-width", cases: radix }),
         Box::new(Decls { family: "signatures", cases: sig }),
     ]
 }
